@@ -1,7 +1,7 @@
 (** C12: login throttling stops guessing; sessions are valid only until expiry
     or logout.  Only statements here; proofs live in Proofs/RateLimit.v and
     Proofs/Session.v. *)
-From AGH Require Import Base.Run Model.RateLimit Model.Session Model.SessionConc Proofs.RateLimit Proofs.Session Proofs.SessionConc Proofs.LimiterCfg Proofs.AuthPins Gen.AuthPins.
+From AGH Require Import Base.Run Model.RateLimit Model.Session Model.SessionConc Model.LoginConc Proofs.RateLimit Proofs.Session Proofs.SessionConc Proofs.LoginConc Proofs.LimiterCfg Proofs.AuthPins Gen.AuthPins.
 From stdpp Require Import gmap.
 Local Open Scope Z_scope.
 
@@ -667,3 +667,63 @@ Example C12_refresh_store_unlocked_refuted :
 Proof. exact refresh_store_unlocked_refuted. Qed.
 Print Assumptions C12_refresh_store_unlocked_refuted.
 End Concurrent.
+
+(** ** Round 7: simultaneous logins (Model/LoginConc.v)
+
+    handleLogin asks the limiter before the password is evaluated and counts
+    the failure afterwards, in two separate critical sections; [ensure] holds
+    the control lock around the handler for POST.  A login is a thread of
+    three steps (check, evaluate, count); [lrun true] is the code (lock
+    taken), [lrun false] the variant without it (seeded change C12-M). *)
+
+(** With the control lock, for EVERY interleaving of any number of login
+    requests: once all are answered, the limiter's table and every answer are
+    those of handleLogin run sequentially over the attempts in the order the
+    log gives, and every request is in that log with the answer it got.  So
+    the throttling theorems above, which are about sequential histories
+    ([C12_block_after_limit], [_configured], [C12_block_period_exact], ...),
+    hold for concurrent attempts: in particular no more than the limit of
+    passwords of one address are evaluated in a burst, however many attempts
+    are in flight at once. *)
+Theorem C12_throttling_holds_under_concurrency :
+  forall (c : rl_conf) (s0 : rl_state) (atts : list att) (sched : list nat) (st : lstate),
+  lrun true c sched (linit s0 atts) = Some st ->
+  Forall (fun p => ldone p = true) (l_thr st) ->
+  run_logins c s0 (log_atts (l_log st)) = (l_tab st, log_outs (l_log st)) /\
+  (forall j e o, l_thr st !! j = Some (e, LDone o) -> (j, e, o) ∈ l_log st).
+Proof. exact logins_serialised. Qed.
+Print Assumptions C12_throttling_holds_under_concurrency.
+
+(** While a request is between the limiter's check and its count, no other
+    request passes the check. *)
+Theorem C12_login_sections_exclusive :
+  forall (c : rl_conf) (s0 : rl_state) (atts : list att) (sched : list nat) (st : lstate) (i j : nat) (e : att),
+  lrun true c sched (linit s0 atts) = Some st ->
+  l_ctl st = Some i -> l_thr st !! j = Some (e, LStart) -> lstep true c j st = None.
+Proof. exact login_sections_exclusive. Qed.
+Print Assumptions C12_login_sections_exclusive.
+
+(** The counting form, kept visible: it follows from the theorem above and a
+    counting lemma over sequential histories that is not proved here (the
+    sequential theorems speak about the attempt after a burst, not about a
+    count); shown on the instance below. *)
+Definition C12_concurrent_evaluations_bounded_statement : Prop :=
+  forall (c : rl_conf) (a : bytes) (k : nat) (sched : list nat) (st : lstate),
+  (1 <= rl_max c)%N -> (rl_ttl c <= rl_block c)%Z ->
+  lrun true c sched (linit ∅ (repeat {| a_now := 0; a_now2 := 0; a_addr := a; a_hdr := None; a_trusted := false; a_ok := false |} k)) = Some st ->
+  (levaluated st <= N.to_nat (rl_max c))%nat.
+
+(** Without the lock (seeded change C12-M): limit 3, four wrong passwords from
+    one address, all four pass the check before the first failure is counted:
+    four passwords evaluated, four times 403.  With the lock that schedule does
+    not exist (the second request cannot move); the complete schedule
+    evaluates three, and its answers are the sequential ones. *)
+Example C12_logins_unserialised_refuted :
+  (exists st, lrun false ex_conf ex_burst_sched (linit ∅ (repeat ex_att 4)) = Some st /\
+              map lout (l_thr st) = [Some L403; Some L403; Some L403; Some L403] /\ levaluated st = 4%nat) /\
+  lrun true ex_conf ex_burst_sched (linit ∅ (repeat ex_att 4)) = None /\
+  (exists st, lrun true ex_conf ex_seq_sched (linit ∅ (repeat ex_att 4)) = Some st /\
+              Forall (fun p => ldone p = true) (l_thr st) /\ levaluated st = 3%nat /\
+              snd (run_logins ex_conf ∅ (repeat ex_att 4)) = log_outs (l_log st)).
+Proof. exact unserialised_refuted. Qed.
+Print Assumptions C12_logins_unserialised_refuted.
